@@ -280,11 +280,18 @@ def oracle(impl, op, before_disk, after_disk, exc):
         if pre is None or path not in pre["recs"]:
             out.append(("deletes-untracked", "deleted a file it was not tracking", "tracked path", path))
             continue
-        same = [u[p][1] for p in pre["recs"] if p in u and u[p][0] == t[0]]
+        # a path whose removal / rename this very event reports, and which is indeed gone, is not a
+        # tracked file any more: it must not count towards a limit
+        excl = set()
+        if op[0] in ("D", "V"):
+            gp = pstr(impl.top, tuple(op[1]))
+            if gp not in after_disk and gp != path:
+                excl.add(gp)
+        same = [u[p][1] for p in pre["recs"] if p in u and u[p][0] == t[0] and p not in excl]
         if t[1] > min(same):
             out.append(("not-oldest-first", "deleted a file newer than one it keeps in the channel",
                         {"min_key": min(same)}, {"deleted_key": t[1], "path": path}))
-        true_size = sum(v[1] for v in pre["recs"].values())
+        true_size = sum(v[1] for q, v in pre["recs"].items() if q not in excl)
         just = ((count is not None and len(same) > count) or (dur is not None and max(same) - min(same) > dur)
                 or (size is not None and true_size > size))
         if not just:
